@@ -41,7 +41,12 @@ typedef uint8_t TreeElement;
 // Size of the ring buffer (in bytes) used to store past history
 // for copies.
 
+#if defined(LHASA_VERIF) && defined(LHASA_VERIF_RING_BUFFER_SIZE)
+/* verification hook: scaled history window (same ring arithmetic) */
+#define RING_BUFFER_SIZE LHASA_VERIF_RING_BUFFER_SIZE
+#else
 #define RING_BUFFER_SIZE      8192
+#endif
 
 // Maximum number of bytes that might be placed in the output buffer
 // from a single call to lha_pm2_decoder_read (largest copy size).
